@@ -7,6 +7,7 @@ From Coq Require Import String Ascii.
 From Coq Require Import List Arith Bool.
 Require Import TT.Model.Str TT.Model.TypeParse TT.Spec.TsType TT.Model.Render TT.Model.C05Emit.
 Require Import TT.Spec.C05Spec TT.Spec.C05Known TT.Spec.C18Spec TT.Spec.C18Known.
+Require Import TT.Model.C05Parse TT.Proofs.C05ParseProofs.
 Require Import TT.Proofs.TypeParseProofs TT.Proofs.RenderProofs TT.Proofs.C05Proofs TT.Proofs.C05Sweep TT.Proofs.C05Examples TT.Proofs.C18Proofs.
 Import ListNotations.
 Local Open Scope string_scope.
@@ -24,13 +25,12 @@ Definition C18_subst_full_statement : Prop :=
    name of the parsed structure is a key of the table, the site prints byte for byte what it prints
    without the table (visitors, Zod visitor, schema builder and add_types_prefix included). *)
 Theorem C18_frame : forall s md m opt ty,
-  (forall ts, parse_type_structure ty = Some ts -> unmapped m ts) ->
+  (forall ts, parse_type_structure2 ty = Some ts -> unmapped m ts) ->
   emit_str s md m opt ty = emit_str s md [] opt ty.
 Proof. exact frame_str. Qed.
 
 Theorem C18_frame_type : forall s md m t,
-  wf t -> kf_result_ok_has_comma t = false -> kf_tuple_elem_has_comma t = false ->
-  unmapped m (sem t) -> emit_type s md m t = emit_type s md [] t.
+  wf t -> nobr t -> unmapped m (sem t) -> emit_type s md m t = emit_type s md [] t.
 Proof. exact frame_type. Qed.
 
 (* Everywhere: the text rendered with the table is the text of the structure in which every custom
@@ -40,8 +40,7 @@ Proof. exact render_m_msubst. Qed.
 
 (* ... and at parameter, field and channel sites that text denotes the README shape of the type with
    every mapped name replaced by its target (rshape m), for all types, tables and depths. *)
-Theorem C18_subst_plain : forall m t, mapping_ok m -> dom_m m t = true ->
-  kf_result_ok_has_comma t = false -> kf_tuple_elem_has_comma t = false -> kf_union_under_seq (sem t) = false ->
+Theorem C18_subst_plain : forall m t, mapping_ok m -> dom_m m t = true -> kf_union_under_seq (sem t) = false ->
   forall s md, plain_site s md = true ->
   exists text, emit_type s md m t = Some text /\
                observe (site_is_type s md) text = Some (expected s m t).
@@ -60,30 +59,32 @@ Theorem C18_sweep_domain_depth1_partial :
   forall t, In t spines18_1 -> dom_m table18 t = true.
 Proof. exact (proj1 (forallb_forall (dom_m table18) spines18_1) (proj2 sweep18_depth1)). Qed.
 
-(* the classes are genuine failures of the faithful model *)
-Theorem C18_prefix_on_target_refuted :
-  dom_m table18 w18_prefix = true /\ classes18 SReturn MNone table18 w18_prefix = [K18Prefix] /\
+(* the three classes recorded before the repairs (C18-1, C18-2, C18-3): on the old witnesses the
+   oracle now accepts the model's texts, and still rejects the old output *)
+Theorem C18_prefix_on_target_repaired :
+  dom_m table18 w18_prefix = true /\
   emit_type SReturn MNone [] w18_prefix = Some (L "types.PathBuf[][]") /\
-  emit_type SReturn MNone table18 w18_prefix = Some (L "types.string[][]") /\
+  emit_type SReturn MNone table18 w18_prefix = Some (L "string[][]") /\
+  c18_ok true table18 w18_prefix (L "string[][]") (L "types.PathBuf[][]") = true /\
   c18_ok true table18 w18_prefix (L "types.string[][]") (L "types.PathBuf[][]") = false.
-Proof. exact prefix_on_target_refuted. Qed.
-Theorem C18_tuple_comma_refuted :
-  classes18 SField MNone table18 w18_tuple = [K18TupleComma] /\
-  emit_type SField MNone table18 w18_tuple = Some (L "[number, HashMap<String, PathBuf>]") /\
-  c18_ok true table18 w18_tuple (L "[number, HashMap<String, PathBuf>]") (L "[number, HashMap<String, PathBuf>]") = false.
-Proof. exact tuple_comma_refuted. Qed.
-Theorem C18_result_comma_refuted :
-  classes18 SField MNone table18 w18_result = [K18ResultComma] /\
-  emit_type SField MNone table18 w18_result = Some (L "(PathBuf") /\
-  c18_ok true table18 w18_result (L "(PathBuf") (L "(PathBuf") = false.
-Proof. exact result_comma_refuted. Qed.
+Proof. exact prefix_on_target_repaired. Qed.
+Theorem C18_tuple_comma_repaired :
+  emit_type SField MNone table18 w18_tuple = Some (L "[number, Record<string, string>]") /\
+  emit_type SField MNone [] w18_tuple = Some (L "[number, Record<string, PathBuf>]") /\
+  c18_ok true table18 w18_tuple (L "[number, Record<string, string>]") (L "[number, Record<string, PathBuf>]") = true.
+Proof. exact tuple_comma_repaired. Qed.
+Theorem C18_result_comma_repaired :
+  emit_type SField MNone table18 w18_result = Some (L "[string, number]") /\
+  emit_type SField MNone [] w18_result = Some (L "[PathBuf, number]") /\
+  c18_ok true table18 w18_result (L "[string, number]") (L "[PathBuf, number]") = true.
+Proof. exact result_comma_repaired. Qed.
 
 (* ---- premises are satisfiable on non-trivial inputs ---- *)
 Definition ex18 : rty :=
   RPath (L "HashMap") [RPath (L "String") [];
     RPath (L "Vec") [RTuple [RPath (L "Option") [RPath (L "PathBuf") []]; datetime_utc; RPath (L "User") []]]].
 Example C18_subst_plain_premises :
-  dom_m table18 ex18 = true /\ kf_result_ok_has_comma ex18 = false /\ kf_tuple_elem_has_comma ex18 = false /\
+  dom_m table18 ex18 = true /\
   kf_union_under_seq (sem ex18) = false /\ plain_site SParam MNone = true /\
   emit_type SParam MNone table18 ex18 = Some (L "Record<string, [string | null, boolean, User][]>") /\
   emit_type SParam MNone [] ex18 = Some (L "Record<string, [PathBuf | null, DateTime<Utc>, User][]>").
@@ -94,8 +95,8 @@ Proof. repeat constructor; discriminate. Qed.
 Example C18_frame_premises :
   let m := [(L "Uuid", L "number")] in
   let ty := L "Vec<(PathBuf, User)>" in
-  (forall ts, parse_type_structure ty = Some ts -> unmapped m ts) /\
-  emit_str SReturn MZod m false ty = Some (L "types.[PathBuf, User][]").
+  (forall ts, parse_type_structure2 ty = Some ts -> unmapped m ts) /\
+  emit_str SReturn MZod m false ty = Some (L "[PathBuf, User][]").
 Proof. cbv zeta. split.
   - intros ts H. vm_compute in H. inversion H; subst. intros n Hn. simpl in Hn.
     destruct Hn as [<-|[<-|[]]]; vm_compute; reflexivity.
@@ -110,6 +111,6 @@ Print Assumptions C18_render_subst.
 Print Assumptions C18_subst_plain.
 Print Assumptions C18_sweep_depth1_partial.
 Print Assumptions C18_sweep_domain_depth1_partial.
-Print Assumptions C18_prefix_on_target_refuted.
-Print Assumptions C18_tuple_comma_refuted.
-Print Assumptions C18_result_comma_refuted.
+Print Assumptions C18_prefix_on_target_repaired.
+Print Assumptions C18_tuple_comma_repaired.
+Print Assumptions C18_result_comma_repaired.
